@@ -61,6 +61,10 @@ type Profile struct {
 	// NoFileDir: never use the path "alerts" (a file whose name is also a directory in the
 	// pool), so no file is ever replaced by a directory of the same name or the reverse.
 	NoFileDir bool
+	// BareOneIn > 0 (the case runs with parser { relaxed } covering every path): one generated
+	// file in BareOneIn is a bare rule list, and file-level cosmetic edits may switch a file
+	// between the grouped and the bare form (same rules).
+	BareOneIn int
 }
 
 // "alerts" (a rule file without extension) and "alerts/g.yaml" exclude each other: a file
@@ -252,6 +256,9 @@ func (s *gstate) genFile(maxRules int) *File {
 			grp.Rules = append(grp.Rules, s.genRule())
 		}
 		f.Groups = append(f.Groups, grp)
+	}
+	if s.p.BareOneIn > 0 && s.chance("bare", s.p.BareOneIn) {
+		f.Bare = true
 	}
 	if s.p.AdjacentDupOneIn > 0 && s.chance("adjdup", s.p.AdjacentDupOneIn) {
 		g := s.intn("adjgrp", 0, len(f.Groups)-1)
@@ -524,6 +531,11 @@ func (s *gstate) editOp(kind string, fork Tree) bool {
 		if s.chance("filecos", 3) {
 			p := s.pickPath("path")
 			f := s.tree[p]
+			if s.p.BareOneIn > 0 && s.chance("baretoggle", 3) {
+				f.Bare = !f.Bare
+				s.log("cosmetic %s bare-toggle", p)
+				return true
+			}
 			switch s.intn("fcos", 0, 3) {
 			case 0:
 				f.Indent = 2 - f.Indent
@@ -847,10 +859,91 @@ func Gen(t *rapid.T, p Profile) History {
 		}
 		kind := s.weighted("ckind", map[string]int{
 			"rename": p.Weights["rename"], "rename-edit": p.Weights["rename-edit"], "trim": p.Weights["rule-trim"],
-			"file-dir": p.Weights["file-dir"], "edit": 10,
+			"file-dir": p.Weights["file-dir"], "path-reuse": p.Weights["path-reuse"], "edit": 10,
 		}, nil)
 		msg := fmt.Sprintf("branch commit %d", ci+1)
 		switch kind {
+		case "path-reuse":
+			// one path used three times: delete P; rename Q -> P; rename P -> Z; re-create P with its
+			// fork-point (or its last) content, sometimes edited. The ledger says the plain
+			// re-creation revives the original P.
+			paths := s.paths()
+			free := s.freePaths()
+			if len(paths) < 2 || len(free) == 0 {
+				h.Branch = append(h.Branch, s.editCommit(p.Weights, fork, msg))
+				continue
+			}
+			var inFork []string
+			for _, pth := range paths {
+				if _, ok := fork.Get(pth); ok {
+					inFork = append(inFork, pth)
+				}
+			}
+			cand := paths
+			if len(inFork) > 0 && !s.chance("anyp", 4) {
+				cand = inFork
+			}
+			P := cand[s.intn("reuseP", 0, len(cand)-1)]
+			var others []string
+			for _, pth := range paths {
+				if pth != P {
+					others = append(others, pth)
+				}
+			}
+			Q := others[s.intn("reuseQ", 0, len(others)-1)]
+			saved := s.tree[P].Clone()
+			if ff, ok := fork.Get(P); ok && !s.chance("lastcontent", 3) {
+				saved = ff.File.Clone()
+			}
+			step := func(m string, rn [][2]string) {
+				h.Branch = append(h.Branch, Commit{Msg: msg + " (" + m + ")", Ops: s.ops, Renames: rn, Tree: s.snapshot()})
+				s.ops = nil
+			}
+			s.ops = nil
+			delete(s.tree, P)
+			s.log("file-del %s", P)
+			step("delete P", nil)
+			s.tree[P] = s.tree[Q]
+			delete(s.tree, Q)
+			s.log("rename %s->%s", Q, P)
+			step("rename Q to P", [][2]string{{Q, P}})
+			free = s.freePaths()
+			var zs []string
+			for _, z := range free {
+				if z != P && !pathsConflict(z, P) && (s.p.Allowed == nil || !s.p.NoMoveOut || !s.p.Allowed(P) || s.p.Allowed(z)) {
+					zs = append(zs, z)
+				}
+			}
+			if len(zs) == 0 {
+				continue
+			}
+			Z := zs[s.intn("reuseZ", 0, len(zs)-1)]
+			s.tree[Z] = s.tree[P]
+			delete(s.tree, P)
+			s.log("rename %s->%s", P, Z)
+			step("rename P to Z", [][2]string{{P, Z}})
+			s.tree[P] = &saved
+			what := "same content"
+			if s.chance("reuseedit", 3) {
+				if rr, ok := func() (ruleRef, bool) {
+					var refs []ruleRef
+					for gi, g := range s.tree[P].Groups {
+						for ri := range g.Rules {
+							if g.Rules[ri].Valid() {
+								refs = append(refs, ruleRef{P, gi, ri})
+							}
+						}
+					}
+					if len(refs) == 0 {
+						return ruleRef{}, false
+					}
+					return refs[s.intn("rule", 0, len(refs)-1)], true
+				}(); ok {
+					what = "edited: " + s.modRule(s.rule(rr))
+				}
+			}
+			s.log("file-readd %s path-reuse %s", P, what)
+			step("re-create P", nil)
 		case "file-dir":
 			// a file is deleted and, in the next commit, a directory of the same name appears
 			// with a rule file in it (or the reverse: directory emptied, file of that name created)
